@@ -8,17 +8,28 @@ static void var_add(int v, long d)
     if (ds_active())
         ds_touch();
 }
+/* Polling discipline: wait_arm() BEFORE the condition is evaluated, then
+ * actor_wait_step() if it does not hold.  An external thread sleeps only if
+ * nothing was written since the arm, and re-arms when it wakes up. */
+static __thread uint64_t t_wait_epoch;
+static void wait_arm(void)
+{
+    t_wait_epoch = ds_epoch();
+}
 static void actor_wait_step(actor *a)
 {
     if (a->kind == A_UNIT && a->utype == U_TASK)
         generr("tasklet cannot poll");
-    if (is_ult_actor(a))
+    if (is_ult_actor(a)) {
         actor_yield(a);
-    else
-        ds_wait_change();
+    } else {
+        ds_wait_since(t_wait_epoch);
+        wait_arm();
+    }
 }
 static void op_awaitvar(actor *a, int v, long n)
 {
+    wait_arm();
     while (__atomic_load_n(&G.var[v], __ATOMIC_SEQ_CST) < n)
         actor_wait_step(a);
 }
@@ -30,6 +41,7 @@ static void op_awaitvar(actor *a, int v, long n)
  * a clock that keeps running */
 static void op_awaitvar_t(actor *a, int v, long n, long quantum_us)
 {
+    wait_arm();
     while (__atomic_load_n(&G.var[v], __ATOMIC_SEQ_CST) < n) {
         actor_wait_step(a);
         if (ds_active() && quantum_us > 0)
@@ -169,6 +181,7 @@ static void op_csigloop(actor *a, int c, int m, long total, long pattern)
     if (racy)
         c_racy[c] = 1;
     for (;;) {
+        wait_arm();
         op_lock(a, m, 0);
         int done = (c_left[c] >= total);
         int waiting = c_registered[c] - c_left[c];
